@@ -176,8 +176,10 @@ CLAIMED = {
          "sortCoverageLast and the extension area, positions, offset emission) is transcribed into Gallina and reproduces the real packer's "
          "output BYTE FOR BYTE on writer graphs captured from corpus and generated layout tables. Theorems: an emitted offset field reads back "
          "as exactly the distance to the sub-table and fits its width (no wrapped offsets: out-of-range distances raise), every table's bytes "
-         "start at the running sum of the preceding lengths, and that is the position offsets were computed from. Overflow repair (subtable "
-         "splitting, Extension promotion), the HarfBuzz repacker and GPOS compaction 0..9 are checked on the implementation pair by pair / "
+         "start at the running sum of the preceding lengths, and that is the position offsets were computed from. The subtable splits used to "
+         "repair overflows (splitPairPos formats 1 and 2, splitSinglePos) are modelled: for every first glyph the two halves, tried in order, "
+         "give the record the whole subtable gave (class 0 and the renumbering included); correspondence on the real otTables objects. The other "
+         "overflow repairs (Extension promotion), the HarfBuzz repacker and GPOS compaction 0..9 are checked on the implementation pair by pair / "
          "sequence by sequence against the rule text through HarfBuzz on tables that overflow 16-bit offsets (testing). Known finding F3.",
          "Rocq proof of offset exactness and placement over a byte-exact packer model + overflow/compaction shaping sweeps"),
  "C07": ("Gallina models of substitution-lookup subsetting, of the WHOLE GSUB glyph closure (single/multiple/alternate/ligature subtables, "
